@@ -65,3 +65,9 @@ CHECKS.update({
 })
 
 NOT_APPLICABLE = {}
+
+ENUM_TECH = "exhaustive enumeration of a bounded input / operation-sequence space, every case executed on the real implementation and compared with an independent reference model"
+CHECKS.update({
+    "C07": ("6/C07", "Every retry-condition term of depth <=2 over 15 atoms (|, &, retry_any/retry_all with 0-3 arguments, plain callables on either side) on 8 exceptions with chained causes; every stop-condition term on a 7x9x4 (attempts, elapsed, upcoming_sleep) grid; every built-in wait strategy on parameter grids x 13 attempt counts (up to 10^5, past double overflow) x 5 seeds incl. None; compared with truth tables, sums of parts and the documented bounds; seeded calls repeated with a perturbed global RNG and on a fresh instance.",
+            "Sane parameters only (min<=max, non-negative). Fix e15796f repaired the OverflowError this check found.", ENUM_TECH),
+})
